@@ -19,8 +19,24 @@ def _expand(counts, xs):
     return out
 
 
+_hexeq = vlib.hexfloat_eq(1e-9)
+
+
+def eq(req, a, b):
+    """(A): exact text, except the amplitude vectors of `cstep` answers (IEEE bit patterns, compared to 1e-9)"""
+    return _hexeq(req, a, b) if req.startswith("cstep ") else a == b
+
+
 def nontrivial(req, ans):
     k = req.split(" ", 1)[0]
+    if k == "cstep" and ans.startswith("ok"):
+        # some shots matched and some did not: the number of ranges changed, or the states did
+        try:
+            return req.split(" | ")[2] != ans.split(" | ")[1]
+        except Exception:
+            return False
+    if k in ("ffisame", "ffierr"):
+        return True
     if k == "ranges":
         return ans.startswith("ok") and len(ans.split()) > 4      # at least two pieces
     if k in ("condrun", "condrun2") and ans.startswith("ok"):
@@ -46,6 +62,7 @@ SPEC = {
     "drivers": ["drv_c07"],
     "harness_bin": "c07",
     "canon": canon,
+    "eq": eq,
     "spec_check": vlib.spec_via_driver("drv_c07"),
     "classify": lambda fl: DEFECT_CLASSES.get(fl.get("class")),
     "nontrivial": nontrivial,
@@ -63,7 +80,16 @@ SPEC = {
             "feedback circuits (X preparation, a conditional gate that reads bits BEFORE the measurement that writes them in this run, H + "
             "measure_all into exactly those bits, second conditional gate, measure_all), are executed once with another seed (same shot "
             "count, now and then the other representation) and then again on the same Circuit object; the requests come from the trace of the "
-            "SECOND run. The driver also runs the lead's Q1t.Model.Sim.collectConditionalRanges on every ranges request "
+            "SECOND run. STATE-VECTOR requests (`cstep`: full snapshot and register before/after one conditional operation; (A) the Lean "
+            "simulator model executes the operation, (B) per shot the reference semantics: gate matrix with the CURRENT parameter values on "
+            "matching shots up to a global phase, other shots exactly untouched): 600 (3000) circuits whose conditional gates hold "
+            "REFERENCE-valued parameters (Rc<RefCell<f64>> and raw pointers; RX RY RZ U1 U2 U3 with every direct/reference mix, CRX CRY CRZ CU1 "
+            "CCRX CCRY CCRZ, bare and inside C/Kron/Composite/Loop), cells overwritten between construction and the first run and before "
+            "every later run (execute / reexecute / execute again on the same object); 500 (2500) circuits BUILT THROUGH THE C INTERFACE "
+            "(circuit_add_conditional_gate for EVERY gate name of its table, parameters by value or by pointer overwritten afterwards, a "
+            "measured coin so that some shots match and some do not): cstep on the traced run, the trace must equal that of the same circuit "
+            "built through the Rust API (`ffisame`), and a control list with an out-of-range bit must be refused by both (`ffierr`). "
+            "The driver also runs the lead's Q1t.Model.Sim.collectConditionalRanges on every ranges request "
             "and answers 'two-lean-models-disagree' on any difference. "
             "Non-trivial = ranges answer with >= 2 pieces, or circuit where the gate changed some shots' states and not others; "
             "distinct = distinct request line.",
